@@ -10,6 +10,8 @@ mod spec;
 #[cfg(feature = "full")]
 mod build;
 #[cfg(feature = "full")]
+mod child;
+#[cfg(feature = "full")]
 mod deriv;
 #[cfg(feature = "full")]
 mod gen;
@@ -143,6 +145,10 @@ fn cmd_merge(args: &[String]) -> i32 {
 }
 
 fn main() {
+    #[cfg(feature = "full")]
+    if let Some(code) = child::maybe_child() {
+        std::process::exit(code);
+    }
     let args: Vec<String> = std::env::args().skip(1).collect();
     let code = match args.first().map(String::as_str) {
         Some("run") => cmd_run(&args[1..]),
